@@ -7,6 +7,7 @@ import (
 	"context"
 	"errors"
 	"fmt"
+	"maps"
 	"strings"
 	"sync"
 
@@ -47,12 +48,13 @@ func (a *AuditedHeadersConfig) add(ctx context.Context, header string, hmac bool
 	a.Lock()
 	defer a.Unlock()
 
-	if a.Headers == nil {
-		a.Headers = make(map[string]*auditedHeaderSettings, 1)
-	}
+	// Change a copy and only put it in place once it has been persisted, so
+	// that a failed update does not take effect on the live config.
+	headers := make(map[string]*auditedHeaderSettings, len(a.Headers)+1)
+	maps.Copy(headers, a.Headers)
 
-	a.Headers[strings.ToLower(header)] = &auditedHeaderSettings{hmac}
-	entry, err := logical.StorageEntryJSON(auditedHeadersEntry, a.Headers)
+	headers[strings.ToLower(header)] = &auditedHeaderSettings{hmac}
+	entry, err := logical.StorageEntryJSON(auditedHeadersEntry, headers)
 	if err != nil {
 		return fmt.Errorf("failed to persist audited headers config: %w", err)
 	}
@@ -60,6 +62,8 @@ func (a *AuditedHeadersConfig) add(ctx context.Context, header string, hmac bool
 	if err := a.view.Put(ctx, entry); err != nil {
 		return fmt.Errorf("failed to persist audited headers config: %w", err)
 	}
+
+	a.Headers = headers
 
 	return nil
 }
@@ -79,8 +83,11 @@ func (a *AuditedHeadersConfig) remove(ctx context.Context, header string) error 
 		return nil
 	}
 
-	delete(a.Headers, strings.ToLower(header))
-	entry, err := logical.StorageEntryJSON(auditedHeadersEntry, a.Headers)
+	// As in add, only put the change in place once it has been persisted.
+	headers := maps.Clone(a.Headers)
+
+	delete(headers, strings.ToLower(header))
+	entry, err := logical.StorageEntryJSON(auditedHeadersEntry, headers)
 	if err != nil {
 		return fmt.Errorf("failed to persist audited headers config: %w", err)
 	}
@@ -88,6 +95,8 @@ func (a *AuditedHeadersConfig) remove(ctx context.Context, header string) error 
 	if err := a.view.Put(ctx, entry); err != nil {
 		return fmt.Errorf("failed to persist audited headers config: %w", err)
 	}
+
+	a.Headers = headers
 
 	return nil
 }
